@@ -74,7 +74,8 @@ def _arg(sel: int, v: int, w: int, f: float, t: str, symbolic_str: bool = True):
 
 
 def _schema(target: str, a: Optional[int], b: Optional[int], lo: Optional[int], hi: Optional[int], d: Optional[int]):
-    schema = Schema(dynamic=(target == "dyn"))
+    # env="VFC01": every field gets an environment variable NAME (no variable is set): must change nothing
+    schema = Schema(dynamic=(target == "dyn"), env="VFC01")
     schema.other = IntField(default=7)
     schema.sub.q = StringField(default="q")
     if target == "int":
@@ -217,6 +218,16 @@ def _step(target: str, route: str, sel: int, v: int, w: int, f: float, t: str,
                     skip("reset of a dynamic key: no declared default")
                 reset_value(cfg, key)
                 hold("reset", plain(cfg) == plain(schema()), "reset did not restore the declared default")
+                if target == "lst":
+                    try:
+                        cfg.x.append(-5)          # in-place mutation of the restored value is still validated
+                    except ValueError:
+                        pass
+                elif target == "dct":
+                    try:
+                        cfg.x["low"] = -5
+                    except ValueError:
+                        pass
         except Exception as exc:  # noqa: BLE001 - the exception type is C15's subject; here: the state afterwards
             raised = exc
         hold("others", _others(cfg) == before, "operation on %s changed a bystander field" % key)
